@@ -320,6 +320,70 @@ def checkCase (j : Json) : Except String Verdict := do
         match psess with
         | none => v := v.mon "C01" "auth_202_without_session" idx
         | some s => if s.slug != slug || s.host != host || s.lifetime < 0 then v := v.mon "C01" "auth_202_without_session" idx
+      -- ---------------- C18: hardening of every response produced for a configured upstream
+      let sec := getJ out "secHeaders"
+      let hv (k : String) : List String := strs sec k
+      for (k, dflt) in [("X-Content-Type-Options", "nosniff"), ("X-Frame-Options", "SAMEORIGIN"), ("X-Xss-Protection", "1; mode=block")] do
+        let want := match u.override.find? (fun p => p.1.toLower == k.toLower) with | some (_, ov) => ov | none => dflt
+        if hv k != [want] then v := v.mon "C18" "protected_header" idx s!"{k}: {hv k} (want {want})"
+      if secure then
+        if hv "Strict-Transport-Security" != ["max-age=31536000"] then
+          let upSets := (strs (getJ inp "upstreamResp") "groups").any fun kv => kv.toLower.startsWith "strict-transport-security"
+          v := v.mon "C18" "hsts_every_response_when_secure" idx s!"{hv "Strict-Transport-Security"}" (if upSets && reached then "upstream-hsts" else "")
+        if strD ora "urlScheme" != "https" && strD inp "proto" != "https" then
+          if status != 301 || strD loc "raw" != strD ora "httpsLocation" || reached then
+            v := v.mon "C18" "https_redirect" idx s!"{status} {strD loc "raw"} (want 301 {strD ora "httpsLocation"})"
+      for c in ((jarr out "setCookies").toOption.getD #[]) do
+        let wantDomain := if strD cfg "domain" != "" then strD cfg "domain" else strD ora "hostNoPort"
+        if strD c "path" != "/" || boolD c "secure" != secure || boolD c "httpOnly" != boolD cfg "httpOnly" || strD c "domain" != wantDomain then
+          v := v.mon "C18" "cookie_flags" idx s!"{c.compress} (want domain {wantDomain})"
+      -- ---------------- C06: flow start and callback
+      let scheme := if secure then "https" else "http"
+      if ex.locKind == "sign_in" && status == 302 then
+        if !(boolD out "csrfSet") then v := v.mon "C06" "start_sets_csrf_cookie" idx
+        if strD loc "stateURI" != strD ora "urlString" || strD loc "csrfURI" != strD ora "urlString" then v := v.mon "C06" "start_records_request_uri" idx
+        if strD loc "stateSID" != strD loc "csrfSID" || strD loc "stateSID" == "" then v := v.mon "C06" "start_same_flow_id" idx
+        if boolD loc "stateEqualsCsrf" then v := v.mon "C06" "start_distinct_ciphertexts" idx
+        if strD loc "redirect_uri" != s!"{scheme}://{host}/oauth2/callback" then v := v.mon "C06" "start_callback_on_request_host" idx (strD loc "redirect_uri")
+        if !(boolD loc "sigOK") || !(boolD loc "tsFresh") then v := v.mon "C07" "proxy_signs_sign_in" idx
+      if h == "OAuthCallback" then
+        let cb := getJ st "cb"
+        let stt := getJ cb "state"
+        let csr := getJ cb "csrf"
+        let saved := iwrites.any fun w => !(getJ w "save").isNull
+        if saved then
+          let okFlow := boolD stt "opens" && boolD csr "opens" && !(boolD cb "sameString") &&
+            strD stt "sid" == strD csr "sid" && strD stt "uri" == strD csr "uri"
+          let rd := getJ inp "ansRedeem"
+          if !okFlow then v := v.mon "C06" "session_without_matching_flow" idx
+          if strD inp "errParam" != "" || strD inp "code" == "" || strD rd "kind" != "ok" || strD rd "email" == "" then
+            v := v.mon "C06" "session_without_redeemed_identity" idx
+          if strD loc "raw" != strD ora "flowLocation" then v := v.mon "C06" "redirect_is_recorded_uri" idx s!"{strD loc "raw"} vs {strD ora "flowLocation"}"
+          let l := strD loc "raw"
+          let sameSite := (l.startsWith "/" && !(l.startsWith "//") && !(l.startsWith "/\\")) || strD loc "host" == host
+          if !sameSite then v := v.mon "C06" "redirect_same_host" idx l
+          if !(boolD out "csrfCleared") then v := v.mon "C06" "csrf_cleared_after_login" idx
+          -- C11 at login: admitted ⇒ documented any-of
+          let (gres, _) := validateGroup u.groups a
+          let gans : GroupAns := match gres with | .ok _ true => .member | .ok _ false => .notMember | _ => .error
+          if !specAdmit lower u.rules (toB (strD rd "email")) gans then v := v.mon "C11" "login_admits_without_rule" idx
+        else
+          -- C11 at login: everything else fine and the user satisfies a rule ⇒ must be admitted
+          let rd := getJ inp "ansRedeem"
+          let okFlow := boolD stt "opens" && boolD csr "opens" && !(boolD cb "sameString") &&
+            strD stt "sid" == strD csr "sid" && strD stt "uri" == strD csr "uri"
+          let (gres, _) := validateGroup u.groups a
+          let gans : GroupAns := match gres with | .ok _ true => .member | .ok _ false => .notMember | _ => .error
+          if okFlow && strD inp "errParam" == "" && strD inp "code" != "" && strD rd "kind" == "ok" && strD rd "email" != "" &&
+             specAdmit lower u.rules (toB (strD rd "email")) gans then
+            v := v.mon "C11" "login_refuses_despite_rule" idx
+      -- ---------------- C19 (proxy half): sign-out
+      if h == "SignOut" && status != 301 then
+        if (Json.arr iwrites).compress != "[{\"clear\":true}]" then v := v.mon "C19" "proxy_signout_clears" idx (Json.arr iwrites).compress
+        if status != 302 || !(boolD loc "toAuthenticator") || strD loc "path" != s!"/{slug}/sign_out" then v := v.mon "C19" "proxy_signout_redirects_to_authenticator" idx
+        if strD loc "redirect_uri" != s!"{scheme}://{host}/" then v := v.mon "C19" "proxy_signout_return_address" idx (strD loc "redirect_uri")
+        if !(boolD loc "sigOK") || !(boolD loc "tsFresh") then v := v.mon "C19" "proxy_signout_signed" idx
+        if reached then v := v.mon "C19" "proxy_signout_reached_upstream" idx
     | none =>
       if reached then v := v.mon "C13" "unrouted_host_reached_backend" idx
       if urlPath != "/ping" && status != 421 then v := v.mon "C13" "unrouted_host_not_421" idx
